@@ -1,37 +1,51 @@
 """C20 - resource specifications combine monotonically and without side effects (structural clauses).
 
-  1 pure       no method/helper of pipefunc.resources stores into `self`, a Resources parameter, or a container reachable
-               from them (alias analysis: SELF / PARAM / FIELD / SHALLOW-copy / FRESH)
-  2 magnitude  str-typed quantities (memory, time) are never ordered as text: every max/min/sorted/</> operand
-               derived from such a field passes through a `_convert_*` function first
-  3 covers     combine_max has a merge arm for cpus, gpus, memory, time that can only raise the accumulator
-  4 slurm      to_slurm_options has an emitting arm for every quantity field
-  5 validated  __post_init__ rejects every invalid combination and every combinator returns through the constructor
-  6 roundtrip  dict() = asdict minus None values; from_dict passes the mapping unchanged to the constructor
-  7 defaults   with_defaults builds dict(default, **self): the receiver wins
+Every rule is three-valued: it *holds* when an accepted shape is recognised, it is *violated* only when the violating
+construct is positively identified, otherwise it abstains (UNDECIDED).  Rules look at a function together with the private
+helpers and module constants it uses, follow local definitions, and do not depend on names of locals.
+
+  1 pure       no function of pipefunc.resources stores into `self`, a Resources/dict parameter, or a container reachable
+               from them (alias analysis: OBJ / FIELD / SHALLOW-copy / FRESH)
+  2 magnitude  str-typed quantities (memory, time) are never ordered as text, neither directly nor through a helper whose
+               parameter is ordered; the converters are lossless
+  3 covers     combine_max merges cpus, gpus, memory and time from every operand and only ever keeps the larger value
+  4 slurm      to_slurm_options reads every quantity field
+  5 validated  __post_init__ examines every numeric/str quantity and both exclusion rules and can raise; patterns are anchored;
+               the unit table is increasing; combinators return through the constructor
+  6 roundtrip  dict() drops exactly the None values of asdict(self); from_dict hands the mapping to the constructor
+  7 defaults   with_defaults merges so that the receiver wins
 """
 
 from __future__ import annotations
 
 import ast
+import re
 
+from ..flow import Defs, Scope, iterations, merge_winner
 from ..loader import AnalysisError, FuncInfo, dotted, norm, walk_no_nested
 from ..report import Ctx
 from ..selftest import Mutant
 
 PROP = "C20"
 MOD = "pipefunc.resources"
+TECHNIQUE = "alias/purity abstract interpretation + typed ordering rule + merge-direction and field-coverage analysis over the AST and call graph of pipefunc/resources.py"
 EXPLANATION = (
-    "Static analysis of pipefunc/resources.py: an alias/purity abstract interpretation of every function (values SELF, "
-    "PARAM, FIELD-of, SHALLOW-copy-of, FRESH; stores and mutating calls through anything that may alias the receiver or "
-    "a parameter are effects), a typed def-use rule for ordering operations on str-typed quantity fields, and "
-    "exhaustiveness/pattern rules for combine_max, to_slurm_options, __post_init__, dict/from_dict and with_defaults."
+    "Static analysis of pipefunc/resources.py (functions analysed together with the private helpers and module constants "
+    "they use; local definitions are followed, names of locals are irrelevant): an alias/purity abstract interpretation, "
+    "a typed rule for ordering operations on str-typed quantity fields including flows through helper parameters, "
+    "direction analysis of the merge in combine_max, field-coverage rules for to_slurm_options and __post_init__, regex "
+    "anchoring, and merge-precedence analysis of with_defaults. Rules abstain when a construct is not recognised."
 )
 TRUSTED = ["CPython ast parser", "dataclasses.asdict returns a deep copy", "dataclass field annotations state the runtime type"]
-DECLINED = ["numeric monotonicity of combine_max over all unit strings (value-level)", "exact SLURM option text"]
+DECLINED = ["numeric monotonicity of combine_max over all unit strings (value-level)", "exact SLURM option text", "exact bounds (<= 0 vs < 0) of the numeric checks"]
 
 MUTATING = {"update", "setdefault", "append", "extend", "pop", "popitem", "clear", "insert", "remove", "__setitem__", "__delitem__", "sort", "reverse", "add", "discard"}
 QUANTITIES = ["cpus", "gpus", "memory", "time"]
+STR_QUANTITIES = {"memory", "time"}
+
+
+def _mentions(text: str, q: str) -> bool:
+    return re.search(rf"(\.|\['){q}\b", text) is not None
 
 
 # ---------------------------------------------------------------------------- rule 1: alias analysis
@@ -59,41 +73,26 @@ class Alias:
     def val(self, e: ast.AST) -> set[str]:  # noqa: C901, PLR0911
         if isinstance(e, ast.Name):
             return set(self.env.get(e.id, {"FRESH"}))
-        if isinstance(e, ast.Attribute):
+        if isinstance(e, (ast.Attribute, ast.Subscript)):
             base = self.val(e.value)
-            out = set()
-            for v in base:
-                kind, _, who = v.partition(":")
-                if kind in ("OBJ", "FIELD"):
-                    out.add(f"FIELD:{who}")  # includes __dict__: the object's own dict
-                elif kind == "SHALLOW":
-                    out.add(f"FIELD:{who}")
-            return out or {"FRESH"}
-        if isinstance(e, ast.Subscript):
-            base = self.val(e.value)
-            out = set()
-            for v in base:
-                kind, _, who = v.partition(":")
-                if kind in ("OBJ", "FIELD", "SHALLOW"):
-                    out.add(f"FIELD:{who}")
+            out = {f"FIELD:{v.partition(':')[2]}" for v in base if v.partition(":")[0] in ("OBJ", "FIELD", "SHALLOW")}
             return out or {"FRESH"}
         if isinstance(e, ast.Call):
             name = dotted(e.func)
             if isinstance(e.func, ast.Attribute) and e.func.attr == "copy" and not e.args:
-                return {f"SHALLOW:{v.split(':', 1)[1]}" if v.split(":")[0] in ("OBJ", "FIELD", "SHALLOW") else "FRESH" for v in self.val(e.func.value)}
+                return {f"SHALLOW:{v.split(':', 1)[1]}" if ":" in v else "FRESH" for v in self.val(e.func.value)}
             if name in ("dict", "list", "set", "tuple", "copy.copy", "vars") and e.args:
                 inner = self.val(e.args[0])
                 if name == "vars":
                     return {f"FIELD:{v.split(':', 1)[1]}" for v in inner if ":" in v} or {"FRESH"}
                 return {f"SHALLOW:{v.split(':', 1)[1]}" if ":" in v else "FRESH" for v in inner}
-            if isinstance(e.func, ast.Attribute) and e.func.attr in ("get", "setdefault", "pop", "items", "values") :
+            if isinstance(e.func, ast.Attribute) and e.func.attr in ("get", "setdefault", "pop", "items", "values"):
                 base = self.val(e.func.value)
                 return {f"FIELD:{v.split(':', 1)[1]}" for v in base if ":" in v} or {"FRESH"}
-            return {"FRESH"}  # asdict, constructors, other calls
+            return {"FRESH"}  # asdict, .dict(), constructors, other calls
         if isinstance(e, ast.Dict):
             out = {"FRESH"}
-            for k, v in zip(e.keys, e.values):
-                # {**x} is a shallow copy of x; {"k": x.f} holds an alias of x.f as a value
+            for v in e.values:
                 out |= {f"SHALLOW:{a.split(':', 1)[1]}" for a in self.val(v) if ":" in a}
             return out
         if isinstance(e, ast.IfExp):
@@ -106,19 +105,12 @@ class Alias:
         return {"FRESH"}
 
     def mutated_owner(self, target: ast.AST) -> set[str]:
-        """Owners (param names / 'self') that a store through `target` may mutate."""
-        out = set()
-        for v in self.val(target):
-            kind, _, who = v.partition(":")
-            if kind in ("OBJ", "FIELD"):
-                out.add(who)
-        return out
+        return {v.partition(":")[2] for v in self.val(target) if v.partition(":")[0] in ("OBJ", "FIELD")}
 
 
 def rule_pure(ctx: Ctx) -> None:
-    fns = [f for f in ctx.prog.functions_in(MOD)]
     n = 0
-    for fn in fns:
+    for fn in ctx.prog.functions_in(MOD):
         tracked = set()
         for i, p in enumerate(fn.params):
             ann = ast.unparse(p.annotation) if p.annotation is not None else ""
@@ -151,219 +143,304 @@ def rule_pure(ctx: Ctx) -> None:
                 ctx.add("1-pure", fn, node, False, msg + ": the operand is changed although the combinator must return a new object")
         else:
             ctx.add("1-pure", fn, fn.node, True, f"no store or mutating call reaches {sorted(tracked)}", key=f"def {fn.name}")
-    ctx.floor("1-pure", n, 10)
+    ctx.floor("1-pure", n, 8)
     cls = ctx.prog.cls(f"{MOD}.Resources")
     kw = cls.dataclass_kwargs or {}
     ctx.add("1-pure", cls.qualname, cls.loc, kw.get("frozen") is True, "Resources is a frozen dataclass" if kw.get("frozen") is True else "Resources is no longer frozen", key="frozen")
-    for m in ctx.prog.modules.values():
-        if "object.__setattr__" in m.source and m.name.startswith("pipefunc.resources"):
-            ctx.add("1-pure", m.name, m.relpath, False, "object.__setattr__ bypasses the frozen dataclass", key="setattr-bypass")
+    m = ctx.prog.module(MOD)
+    bypass = "object.__setattr__" in m.source
+    ctx.add("1-pure", m.name, m.relpath, not bypass, "no object.__setattr__ bypass" if not bypass else "object.__setattr__ bypasses the frozen dataclass", key="setattr-bypass")
 
 
 # ---------------------------------------------------------------------------- rule 2
-def _str_fields(ctx: Ctx) -> set[str]:
-    cls = ctx.prog.cls(f"{MOD}.Resources")
-    out = set()
-    for name, ann in cls.fields.items():
-        t = ctx.typer.ann(cls.module, None, ann.annotation)
-        if "str" in t.scalars() and not ({"int", "float"} & t.scalars()):
-            out.add(name)
-    return out
+def _raw_quantity(e: ast.AST) -> str | None:
+    """`e` contains a str-typed quantity (attribute .memory/.time or mapping entry ['memory'/'time']) that is not inside a converter call."""
+    par = {id(c): p for p in ast.walk(e) for c in ast.iter_child_nodes(p)}
+    for x in ast.walk(e):
+        q = None
+        if isinstance(x, ast.Attribute) and x.attr in STR_QUANTITIES:
+            q = x.attr
+        elif isinstance(x, ast.Subscript) and isinstance(x.slice, ast.Constant) and x.slice.value in STR_QUANTITIES:
+            q = x.slice.value
+        if q is None:
+            continue
+        y: ast.AST = x
+        conv = False
+        while y is not e and id(y) in par:
+            child, y = y, par[id(y)]
+            if isinstance(y, ast.Compare) and all(isinstance(o, (ast.Is, ast.IsNot, ast.Eq, ast.NotEq, ast.In, ast.NotIn)) for o in y.ops):
+                conv = True  # identity / equality test: a bool flows on, not the text
+            if isinstance(y, ast.IfExp) and child is y.test:
+                conv = True
+            if isinstance(y, ast.Call) and ("convert" in dotted(y.func).lower() or dotted(y.func).rsplit(".", 1)[-1] in ("len", "bool", "isinstance", "str")):
+                conv = True
+        if not conv:
+            return q
+    return None
+
+
+def _touches_quantity(e: ast.AST) -> bool:
+    return any((isinstance(x, ast.Attribute) and x.attr in STR_QUANTITIES) or (isinstance(x, ast.Subscript) and isinstance(x.slice, ast.Constant) and x.slice.value in STR_QUANTITIES) for x in ast.walk(e))
+
+
+def _ordering_sites(fn: FuncInfo):
+    """(node, operands, description) for max/min/sorted calls and </> comparisons of `fn`."""
+    for c in walk_no_nested(fn.node):
+        if isinstance(c, ast.Call) and dotted(c.func) in ("max", "min", "sorted"):
+            yield c, list(c.args), dotted(c.func) + "()"
+        elif isinstance(c, ast.Compare) and any(isinstance(o, (ast.Lt, ast.Gt, ast.LtE, ast.GtE)) for o in c.ops):
+            yield c, [c.left, *c.comparators], "comparison"
 
 
 def rule_magnitude(ctx: Ctx) -> None:
-    str_fields = _str_fields(ctx)
-    if not {"memory", "time"} <= str_fields:
+    cls = ctx.prog.cls(f"{MOD}.Resources")
+    str_fields = set()
+    for name, ann in cls.fields.items():
+        t = ctx.typer.ann(cls.module, None, ann.annotation)
+        if "str" in t.scalars() and not ({"int", "float"} & t.scalars()):
+            str_fields.add(name)
+    if not STR_QUANTITIES <= str_fields:
         raise AnalysisError(f"expected memory and time to be str-typed fields, got {sorted(str_fields)}")
-    quantities = {"memory", "time"}
-    n = 0
     targets = [*ctx.prog.functions_in(MOD), ctx.prog.func("pipefunc._pipefunc._maybe_max_resources")]
+    # parameters that a function orders directly (max/min/sorted/<>): passing a raw quantity to them is textual ordering too
+    ordering_params: dict[str, set[str]] = {}
     for fn in targets:
-        par = {id(c): p for p in ast.walk(fn.node) for c in ast.iter_child_nodes(p)}
-
-        def raw_quantity(e: ast.AST) -> str | None:
-            """e denotes a raw str quantity (attribute .memory/.time or mapping entry ['memory'/'time'])."""
-            for x in ast.walk(e):
-                q = None
-                if isinstance(x, ast.Attribute) and x.attr in quantities:
-                    q = x.attr
-                elif isinstance(x, ast.Subscript) and isinstance(x.slice, ast.Constant) and x.slice.value in quantities:
-                    q = x.slice.value
-                if q is None:
-                    continue
-                # wrapped in a converter call somewhere between x and e?
-                y: ast.AST = x
-                conv = False
-                while y is not e and id(y) in par:
-                    y = par[id(y)]
-                    if isinstance(y, ast.Call) and ("convert" in dotted(y.func).lower() or dotted(y.func).rsplit(".", 1)[-1] in ("len", "bool", "isinstance")):
-                        conv = True
-                if not conv:
-                    return q
-            return None
-
-        for c in walk_no_nested(fn.node):
-            operands: list[ast.AST] = []
-            what = ""
-            if isinstance(c, ast.Call) and dotted(c.func) in ("max", "min", "sorted"):
-                operands, what = list(c.args), dotted(c.func) + "()"
-            elif isinstance(c, ast.Compare) and any(isinstance(o, (ast.Lt, ast.Gt, ast.LtE, ast.GtE)) for o in c.ops):
-                operands, what = [c.left, *c.comparators], "comparison"
-            if not operands:
-                continue
-            qs = [raw_quantity(o) for o in operands]
-            involved = [q for q in qs if q]
-            touches = any(isinstance(x, (ast.Attribute, ast.Subscript)) and (getattr(x, "attr", None) in quantities or (isinstance(x, ast.Subscript) and isinstance(x.slice, ast.Constant) and x.slice.value in quantities)) for o in operands for x in ast.walk(o))
-            if not touches and not any("_gb" in ast.unparse(o) or "second" in ast.unparse(o) for o in operands):
+        ps = set(fn.param_names())
+        for _node, operands, _w in _ordering_sites(fn):
+            for o in operands:
+                if isinstance(o, ast.Name) and o.id in ps:
+                    ordering_params.setdefault(fn.qualname, set()).add(o.id)
+    n = 0
+    for fn in targets:
+        d = Defs(fn)
+        for node, operands, what in _ordering_sites(fn):
+            resolved = [d.resolve(o) for o in operands]
+            if not any(_touches_quantity(o) for o in resolved):
                 continue
             n += 1
-            ctx.add("2-magnitude", fn, c, not involved,
-                    f"{what} on converted magnitudes" if not involved else f"{what} orders the str-typed quantity `{involved[0]}` as text ('2:00:00' > '10:00:00', '9GB' > '10GB')", key=norm(c)[:120])
+            raw = [q for q in map(_raw_quantity, resolved) if q]
+            ctx.add("2-magnitude", fn, node, not raw, f"{what} on converted magnitudes" if not raw else
+                    f"{what} orders the str-typed quantity `{raw[0]}` as text ('2:00:00' > '10:00:00', '9GB' > '10GB')", key=f"{what} {norm(node)[:90]}")
+        for c in [c for c in walk_no_nested(fn.node) if isinstance(c, ast.Call)]:
+            for callee in ctx.cg.resolve_callable(fn, c.func):
+                ops = ordering_params.get(callee.qualname)
+                if not ops:
+                    continue
+                pnames = [p for p in callee.param_names() if p not in ("self", "cls")]
+                given = list(zip(pnames, c.args)) + [(k.arg, k.value) for k in c.keywords if k.arg]
+                for pn, a in given:
+                    q = _raw_quantity(d.resolve(a)) if pn in ops else None
+                    if q:
+                        n += 1
+                        ctx.add("2-magnitude", fn, c, False, f"the str-typed quantity `{q}` is passed to `{callee.name}`, which orders its parameter `{pn}`: textual comparison", key=f"via {callee.name} {q}")
     ctx.floor("2-magnitude", n, 1)
     for conv in ("_convert_to_gb", "_convert_to_seconds"):
         f = ctx.prog.maybe_func(f"{MOD}.Resources.{conv}")
         if f is None:
+            ctx.add("2-magnitude", f"{MOD}.Resources.{conv}", "", None, f"UNDECIDED: no function named {conv}; the ordering rule still requires a converter call around every str quantity", key=f"converter {conv}")
             continue
-        lossy = [c for c in ast.walk(f.node) if (isinstance(c, ast.Call) and dotted(c.func) in ("round", "math.floor", "math.ceil", "math.trunc", "floor", "ceil")) or (isinstance(c, ast.BinOp) and isinstance(c.op, ast.FloorDiv))]
+        sc = Scope(ctx, f)
+        lossy = [x for _f, x in sc.walk() if (isinstance(x, ast.Call) and dotted(x.func) in ("round", "math.floor", "math.ceil", "math.trunc", "floor", "ceil")) or (isinstance(x, ast.BinOp) and isinstance(x.op, ast.FloorDiv))]
         ctx.add("2-magnitude", f, lossy[0] if lossy else f.node, not lossy, f"{conv} is lossless (no rounding)" if not lossy else
                 f"`{norm(lossy[0])[:50]}` rounds inside {conv}: different quantities compare equal, so combine_max can return less than an operand", key=f"lossless {conv}")
-    # converters exist and are numeric
-    for conv, unit in (("_convert_to_gb", "memory"), ("_convert_to_seconds", "time")):
-        f = ctx.prog.maybe_func(f"{MOD}.Resources.{conv}")
-        ok = f is not None and any(isinstance(x, ast.Call) and dotted(x.func) in ("float", "int", "sum") for x in ast.walk(f.node))
-        ctx.add("2-magnitude", f"{MOD}.Resources.{conv}", f.loc if f else "", ok, f"{unit} has a numeric converter" if ok else f"no numeric converter for {unit}", key=f"converter {unit}")
+        numeric = any(isinstance(x, ast.Call) and dotted(x.func) in ("float", "int", "sum") for _f, x in sc.walk())
+        ctx.tri("2-magnitude", f, f.node, numeric, False, f"{conv} produces a number", "", f"{conv} has no float()/int() conversion this rule recognises", key=f"numeric {conv}")
 
 
 # ---------------------------------------------------------------------------- rule 3
-def rule_covers(ctx: Ctx) -> None:
+def rule_covers(ctx: Ctx) -> None:  # noqa: C901
     fn = ctx.prog.func(f"{MOD}.Resources.combine_max")
-    loops = [s for s in walk_no_nested(fn.node) if isinstance(s, ast.For)]
-    main = next((lp for lp in loops if "resources_list" in norm(lp.iter)), None)
-    if main is None:
-        raise AnalysisError("combine_max: loop over resources_list not found")
-    var = norm(main.target)
-    ok = norm(main.iter) == "resources_list"
-    ctx.add("3-covers", fn, main, ok, "merges over every operand" if ok else f"merge loop iterates `{norm(main.iter)}` instead of all operands", key="loop-iter")
+    operand_param = [p for p in fn.param_names() if p not in ("self", "cls")][0]
+    loops = [it for it in iterations(fn.node) if operand_param in ast.unparse(it["iter"]) and it["kind"] == "loop"]
+    if not loops:
+        ctx.add("3-covers", fn, fn.node, None, f"UNDECIDED: no statement loop over `{operand_param}` recognised", key="loop")
+        return
+    lp = loops[0]
+    sliced = isinstance(lp["iter"], ast.Subscript)
+    ctx.add("3-covers", fn, lp["node"], not sliced, "merges over every operand" if not sliced else f"the merge loop iterates `{norm(lp['iter'])}`, not all operands", key="loop-iter")
+    var = norm(lp["target"])
+    d = Defs(fn)
+    loop_text = norm(lp["node"])
+    loop_consts = {c.value for c in ast.walk(lp["node"]) if isinstance(c, ast.Constant) and isinstance(c.value, str)}
     for q in QUANTITIES:
-        arms = [s for s in main.body if isinstance(s, ast.If) and f"{var}.{q} is not None" in norm(s.test)]
-        if not arms:
-            ctx.add("3-covers", fn, main, False, f"combine_max has no merge arm for `{q}`", key=f"arm {q}")
+        stores = [s for s in ast.walk(lp["node"]) if isinstance(s, ast.Assign) and any(isinstance(t, ast.Subscript) and isinstance(t.slice, ast.Constant) and t.slice.value == q for t in s.targets)]
+        reads_operand = any(isinstance(a, ast.Attribute) and a.attr == q and norm(a.value) == var for a in ast.walk(lp["node"]))
+        if not stores and not reads_operand and q not in loop_consts:
+            ctx.add("3-covers", fn, lp["node"], False, f"combine_max has no merge arm for `{q}`: the operands' `{q}` never reaches the result", key=f"arm {q}")
             continue
-        arm = arms[0]
-        stores = [s for s in ast.walk(arm) if isinstance(s, ast.Assign) and any(isinstance(t, ast.Subscript) and isinstance(t.slice, ast.Constant) and t.slice.value == q for t in s.targets)]
-        ok = bool(stores)
-        ctx.add("3-covers", fn, arm, ok, f"`{q}` arm stores into the accumulator" if ok else f"`{q}` arm never updates the accumulator", key=f"arm {q}")
-        # direction: only replace by a larger value
-        direction_ok = True
-        found = False
-        for x in ast.walk(arm):
-            if isinstance(x, ast.Call) and dotted(x.func) in ("max", "min"):
-                found = True
-                direction_ok &= dotted(x.func) == "max"
-            if isinstance(x, ast.Compare) and len(x.ops) == 1 and isinstance(x.ops[0], (ast.Gt, ast.GtE, ast.Lt, ast.LtE)):
-                lt, rt = ast.unparse(x.left), ast.unparse(x.comparators[0])
-                operand_left = (f"{var}." in lt or "current" in lt) and ("max_" in rt)
-                operand_right = (f"{var}." in rt or "current" in rt) and ("max_" in lt)
-                if operand_left or operand_right:
-                    found = True
+        ctx.tri("3-covers", fn, stores[0] if stores else lp["node"], bool(stores) and reads_operand, False,
+                f"`{q}`: the operand's value can be stored into the accumulator", "", f"`{q}` is handled in a form this rule does not follow (table-driven?)", key=f"arm {q}")
+        # direction: ordering decisions that involve this quantity, in the loop and in helpers called with this quantity
+        verdicts: list[tuple[bool, ast.AST, str]] = []
+        seen: set[int] = set()
+        for region in [st for st in ast.walk(lp["node"]) if isinstance(st, (ast.Assign, ast.If)) and _mentions(norm(st), q)]:
+            for x in ast.walk(region):
+                if id(x) in seen:
+                    continue
+                seen.add(id(x))
+                if isinstance(x, ast.Call) and dotted(x.func) in ("max", "min"):
+                    if _mentions(norm(d.resolve(x)), q):
+                        verdicts.append((dotted(x.func) == "max", x, f"{dotted(x.func)}(...)"))
+                elif isinstance(x, ast.Call) and _mentions(norm(x), q):
+                    for callee in ctx.cg.resolve_callable(fn, x.func):
+                        if callee.module.name != fn.module.name or "convert" in callee.name:
+                            continue
+                        ps = set(callee.param_names())
+                        for y in ast.walk(callee.node):
+                            if isinstance(y, ast.Call) and dotted(y.func) in ("max", "min") and y.args and all(isinstance(a, ast.Name) and a.id in ps for a in y.args):
+                                verdicts.append((dotted(y.func) == "max", x, f"{callee.name}: {dotted(y.func)}(...)"))
+                elif isinstance(x, ast.Compare) and len(x.ops) == 1 and isinstance(x.ops[0], (ast.Gt, ast.GtE, ast.Lt, ast.LtE)):
+                    lt, rt = norm(d.resolve(x.left)), norm(d.resolve(x.comparators[0]))
+                    is_op = lambda t: re.search(rf"\b{re.escape(var)}\.{q}\b", t) is not None  # noqa: E731
+                    is_acc = lambda t: f"['{q}']" in t  # noqa: E731
                     greater = isinstance(x.ops[0], (ast.Gt, ast.GtE))
-                    direction_ok &= greater if operand_left else not greater
-        ctx.add("3-covers", fn, arm, found and direction_ok,
-                f"`{q}` is only replaced by a larger value" if found and direction_ok else f"`{q}` arm does not keep the maximum (direction of the comparison / min instead of max)", key=f"direction {q}")
-        init_none = any(f"max_data['{q}'] is None" in norm(x) or f'max_data["{q}"] is None' in ast.unparse(x) for x in ast.walk(arm)) or q == "memory"
-        ctx.add("3-covers", fn, arm, init_none, f"`{q}`: first operand initialises the accumulator" if init_none else f"`{q}` arm does not handle the empty accumulator", key=f"init {q}")
-    ret = [r for r in walk_no_nested(fn.node) if isinstance(r, ast.Return)][-1]
-    ok = norm(ret.value) == "Resources(**max_data)"
-    ctx.add("3-covers", fn, ret, ok, "result built from the accumulator through the constructor" if ok else "combine_max does not return Resources(**max_data)", key="return")
+                    if is_op(lt) and is_acc(rt) and not is_acc(lt) and not is_op(rt):
+                        verdicts.append((greater, x, norm(x)[:60]))
+                    elif is_op(rt) and is_acc(lt) and not is_acc(rt) and not is_op(lt):
+                        verdicts.append((not greater, x, norm(x)[:60]))
+        good = bool(verdicts) and all(v for v, _n, _t in verdicts)
+        bad = [(n_, t) for v, n_, t in verdicts if not v]
+        ctx.tri("3-covers", fn, bad[0][0] if bad else (verdicts[0][1] if verdicts else lp["node"]), good, bool(bad),
+                f"`{q}` is only replaced by a larger value ({'; '.join(t for _v, _n, t in verdicts)[:80]})",
+                f"`{q}`: `{bad[0][1] if bad else ''}` keeps the SMALLER value (min / reversed comparison): the result can be below an operand",
+                f"no max()/comparison between the operand's `{q}` and the accumulator was recognised", key=f"direction {q}")
+    rets = [r for r in walk_no_nested(fn.node) if isinstance(r, ast.Return) and r.value is not None]
+    last = norm(d.resolve(rets[-1].value)) if rets else ""
+    ctx.tri("3-covers", fn, rets[-1] if rets else fn.node, last.startswith("Resources(**"), False, "the result is built from the accumulator through the constructor", "",
+            f"the final return `{last[:60]}` is not Resources(**accumulator)", key="return")
+    _ = loop_text
 
 
 # ---------------------------------------------------------------------------- rules 4-7
-def rule_rest(ctx: Ctx) -> None:
-    cls = ctx.prog.cls(f"{MOD}.Resources")
+def _module_const(ctx: Ctx, name: str) -> ast.AST | None:
+    return ctx.prog.module(MOD).assigns.get(name)
+
+
+def _scope_nodes(ctx: Ctx, fn: FuncInfo) -> list[ast.AST]:
+    """All nodes of fn's scope plus the module-level constants it names."""
+    nodes = [n for _f, n in Scope(ctx, fn).walk()]
+    for n in list(nodes):
+        if isinstance(n, ast.Name):
+            v = _module_const(ctx, n.id)
+            if v is not None:
+                nodes += list(ast.walk(v))
+    return nodes
+
+
+def rule_rest(ctx: Ctx) -> None:  # noqa: C901, PLR0915
+    P = ctx.prog
+    cls = P.cls(f"{MOD}.Resources")
     fields = list(cls.fields)
-    slurm = ctx.prog.func(f"{MOD}.Resources.to_slurm_options")
-    src = ast.unparse(slurm.node)
+    # ---- 4 slurm
+    slurm = P.func(f"{MOD}.Resources.to_slurm_options")
+    read = Scope(ctx, slurm).attrs_read("self")
     n = 0
     for f in fields:
         if f == "parallelization_mode":
             continue
         n += 1
-        if f == "extra_args":
-            ok = "self.extra_args.items()" in src and "options.append" in src
-        else:
-            arms = [s for s in walk_no_nested(slurm.node) if isinstance(s, ast.If) and norm(s.test) in (f"self.{f}", f"self.{f} is not None")]
-            ok = bool(arms) and f"{{self.{f}}}" in ast.unparse(arms[0]) and "options.append" in ast.unparse(arms[0])
-        ctx.add("4-slurm", slurm, slurm.node, ok, f"`{f}` is emitted when set" if ok else f"to_slurm_options does not mention `{f}`", key=f"emit {f}")
+        ok = f in read
+        ctx.add("4-slurm", slurm, slurm.node, ok, f"`{f}` is read when building the options" if ok else f"to_slurm_options never reads `{f}`: a set `{f}` is not mentioned", key=f"emit {f}")
     ctx.floor("4-slurm", n, 8)
-    ok = "' '.join(options)" in src or '" ".join(options)' in src
-    ctx.add("4-slurm", slurm, slurm.node, ok, "all options are returned" if ok else "to_slurm_options does not return all collected options", key="join")
+    # ---- 5 validated
+    post = P.func(f"{MOD}.Resources.__post_init__")
+    sc = Scope(ctx, post)
+    reads, consts = sc.attrs_read("self"), sc.str_consts()
+    raises = sc.raises()
+    ctx.add("5-validated", post, post.node, bool(raises), f"__post_init__ can reject ({len(raises)} raise site(s))" if raises else "__post_init__ never raises", key="raises")
+    for f in ("cpus", "gpus", "nodes", "cpus_per_node", "memory", "time"):
+        ok = f in reads or f in consts
+        ctx.add("5-validated", post, post.node, ok, f"`{f}` is examined at construction" if ok else f"__post_init__ never looks at `{f}`: invalid values are accepted", key=f"examines {f}")
+    # every test and, for nested ifs, the conjunction of enclosing tests
+    tests: list[str] = []
 
-    post = ctx.prog.func(f"{MOD}.Resources.__post_init__")
-    wanted = {
-        "cpus": "self.cpus is not None and self.cpus <= 0", "gpus": "self.gpus is not None and self.gpus < 0",
-        "nodes": "self.nodes is not None and self.nodes <= 0", "cpus_per_node": "self.cpus_per_node is not None and self.cpus_per_node <= 0",
-        "memory": "self.memory is not None and (not self._is_valid_memory(self.memory))", "time": "self.time is not None and (not self._is_valid_wall_time(self.time))",
-        "nodes+cpus": "self.nodes and self.cpus", "cpus_per_node-without-nodes": "self.cpus_per_node and (not self.nodes)",
-    }
-    ifs = {norm(s.test): s for s in post.node.body if isinstance(s, ast.If)}
-    for name, test in wanted.items():
-        s = ifs.get(test)
-        ok = s is not None and any(isinstance(x, ast.Raise) for x in s.body)
-        ctx.add("5-validated", post, s if s is not None else post.node, ok, f"invalid `{name}` is rejected" if ok else f"__post_init__ no longer rejects invalid `{name}` (`{test}`)", key=f"reject {name}")
-    wt = ctx.prog.func(f"{MOD}.Resources._is_valid_wall_time")
-    pats = [c.value for c in ast.walk(wt.node) if isinstance(c, ast.Constant) and isinstance(c.value, str) and "\\d" in c.value]
-    ok = bool(pats) and pats[0].startswith("^") and pats[0].endswith("$")
-    ctx.add("5-validated", wt, wt.node, ok, "wall-time pattern is anchored at both ends" if ok else "wall-time pattern is not anchored: malformed strings pass", key="time-anchored")
-    gb = ctx.prog.func(f"{MOD}.Resources._convert_to_gb")
-    pats = [c.value for c in ast.walk(gb.node) if isinstance(c, ast.Constant) and isinstance(c.value, str) and "\\d" in c.value]
-    ok = bool(pats) and pats[0].startswith("^") and pats[0].endswith("$") and any(isinstance(x, ast.Raise) for x in ast.walk(gb.node))
-    ctx.add("5-validated", gb, gb.node, ok, "memory pattern is anchored and mismatches raise" if ok else "memory pattern not anchored or mismatch does not raise", key="memory-anchored")
-    units = [d for d in ast.walk(gb.node) if isinstance(d, ast.Dict)]
-    if units:
-        vals = {k.value: v for k, v in zip(units[0].keys, units[0].values) if isinstance(k, ast.Constant)}
-        order = ["B", "KB", "MB", "GB", "TB", "PB"]
-        nums = []
-        for u in order:
-            v = vals.get(u)
-            nums.append(float(ast.literal_eval(v)) if v is not None else None)
-        ok = None not in nums and all(a < b for a, b in zip(nums, nums[1:]))  # type: ignore[operator]
-        ctx.add("5-validated", gb, units[0], bool(ok), "unit factors increase B < KB < ... < PB" if ok else "memory unit table is not increasing: sizes compare wrongly", key="unit-table")
-    # combinators return through the constructor
+    def collect(body: list[ast.stmt], outer: str, dd: Defs) -> None:
+        for s in body:
+            if isinstance(s, ast.If):
+                t = outer + " && " + norm(dd.resolve(s.test))
+                if any(isinstance(x, ast.Raise) for x in ast.walk(s)):
+                    tests.append(t)
+                collect(s.body, t, dd)
+                collect(s.orelse, outer, dd)
+            elif isinstance(s, (ast.For, ast.With, ast.Try)):
+                collect(s.body, outer, dd)
+
+    for f_ in sc.funcs:
+        collect(f_.node.body, "", Defs(f_))
+    for a, b, why in (("nodes", "cpus", "`nodes` and `cpus` together"), ("cpus_per_node", "nodes", "`cpus_per_node` without `nodes`")):
+        hit = any(re.search(rf"self\.{a}\b(?!_)", t) and re.search(rf"self\.{b}\b(?!_)", t) for t in tests)
+        ctx.add("5-validated", post, post.node, hit, f"{why} is tested and rejected" if hit else f"no rejecting condition relates self.{a} and self.{b}: {why} is accepted", key=f"exclusion {a}")
+    for fname, what in (("_is_valid_wall_time", "wall-time"), ("_convert_to_gb", "memory")):
+        f = P.maybe_func(f"{MOD}.Resources.{fname}")
+        nodes = _scope_nodes(ctx, f) if f is not None else []
+        pats = [x.value for x in nodes if isinstance(x, ast.Constant) and isinstance(x.value, str) and "\\d" in x.value]
+        good = bool(pats) and all(p.startswith("^") and p.endswith("$") for p in pats)
+        fullmatch = any(isinstance(c, ast.Call) and isinstance(c.func, ast.Attribute) and c.func.attr == "fullmatch" for c in nodes)
+        ctx.tri("5-validated", f if f is not None else f"{MOD}.Resources.{fname}", f.node if f is not None else "", good or (bool(pats) and fullmatch), bool(pats) and not good and not fullmatch,
+                f"{what} pattern is anchored at both ends", f"{what} pattern `{pats[0] if pats else ''}` is not anchored: malformed strings pass", f"no {what} pattern found", key=f"{what}-anchored")
+    gb = P.maybe_func(f"{MOD}.Resources._convert_to_gb")
+    if gb is not None:
+        nodes = _scope_nodes(ctx, gb)
+        table = next((t for t in nodes if isinstance(t, ast.Dict) and {"B", "KB", "GB"} <= {k.value for k in t.keys if isinstance(k, ast.Constant)}), None)
+        if table is None:
+            ctx.add("5-validated", gb, gb.node, None, "UNDECIDED: unit table not found", key="unit-table")
+        else:
+            vals = {k.value: v for k, v in zip(table.keys, table.values) if isinstance(k, ast.Constant)}
+            try:
+                nums = [float(ast.literal_eval(vals[u])) for u in ["B", "KB", "MB", "GB", "TB", "PB"] if u in vals]
+                ok = all(a < b for a, b in zip(nums, nums[1:]))
+                ctx.add("5-validated", gb, gb.node, ok, "unit factors increase B < KB < ... < PB" if ok else "memory unit table is not increasing: sizes compare wrongly", key="unit-table")
+            except (ValueError, SyntaxError):
+                ctx.add("5-validated", gb, gb.node, None, "UNDECIDED: unit factors are not literals", key="unit-table")
+        ok = any(isinstance(x, ast.Raise) for x in nodes)
+        ctx.add("5-validated", gb, gb.node, ok, "a malformed memory string raises" if ok else "_convert_to_gb no longer raises on malformed input", key="memory-raises")
     for name in ("update", "combine_max", "with_defaults", "from_dict"):
-        f = ctx.prog.func(f"{MOD}.Resources.{name}")
+        f = P.func(f"{MOD}.Resources.{name}")
+        dd = Defs(f)
+        ps = set(f.param_names())
         for r in [r for r in walk_no_nested(f.node) if isinstance(r, ast.Return) and r.value is not None]:
-            t = norm(r.value)
-            ok = t.startswith(("Resources(", "Resources.from_dict(")) or t == "self"
-            ctx.add("5-validated", f, r, ok, "returns through the (validating) constructor" if ok else f"`{t[:60]}` does not go through the Resources constructor", key=f"{name}: {t[:60]}")
-
-    d = ctx.prog.func(f"{MOD}.Resources.dict")
-    ret = [r for r in walk_no_nested(d.node) if isinstance(r, ast.Return)][-1]
-    ok = norm(ret.value) == "{k: v for k, v in asdict(self).items() if v is not None}"
-    ctx.add("6-roundtrip", d, ret, ok, "dict() = all fields of asdict(self) that are not None" if ok else "dict() is no longer asdict(self) minus the None values", key="dict")
-    fd = ctx.prog.func(f"{MOD}.Resources.from_dict")
-    rets = [r for r in walk_no_nested(fd.node) if isinstance(r, ast.Return)]
-    ok = any(norm(r.value) == "Resources(**data)" for r in rets)
-    ctx.add("6-roundtrip", fd, rets[0] if rets else fd.node, ok, "from_dict passes the mapping unchanged to the constructor" if ok else "from_dict alters the mapping before constructing", key="from_dict")
+            t = norm(dd.resolve(r.value))
+            good = t.startswith(("Resources(", "Resources.from_dict(", "cls(")) or t in ps
+            bad = any(b in t for b in ("object.__new__", "copy.copy(", "__new__(", "replace("))
+            ctx.tri("5-validated", f, r, good, bad, "returns through the (validating) constructor", f"`{t[:60]}` bypasses the Resources constructor", f"return `{t[:60]}` not recognised", key=f"{name} returns")
+    # ---- 6 roundtrip
+    dfn = P.func(f"{MOD}.Resources.dict")
+    ddef = Defs(dfn)
+    its = [it for it in iterations(dfn.node) if "asdict(self)" in norm(ddef.resolve(it["iter"]))]
+    if not its:
+        ctx.add("6-roundtrip", dfn, dfn.node, None, "UNDECIDED: no iteration over asdict(self) recognised", key="dict")
+    else:
+        it = its[0]
+        tnames = [x.id for x in ast.walk(it["target"]) if isinstance(x, ast.Name)]
+        val = tnames[-1] if tnames else "?"
+        flt = it["filters"]
+        good = flt == [(f"{val} is None", False)]
+        truthy = any(t == val for t, _pol in flt)
+        other = [f_ for f_ in flt if f_ != (f"{val} is None", False)]
+        ctx.tri("6-roundtrip", dfn, it["node"], good, truthy, "dict() keeps every field of asdict(self) that is not None",
+                f"dict() filters on the truth value of `{val}`: set-but-falsy values (gpus=0) are dropped, so from_dict(r.dict()) != r and defaults override them",
+                f"filter(s) {other or 'none'} not recognised", key="dict")
+    fd = P.func(f"{MOD}.Resources.from_dict")
+    param = [p for p in fd.param_names() if p not in ("self", "cls")][0]
+    ctor = [c for c in ast.walk(fd.node) if isinstance(c, ast.Call) and dotted(c.func) in ("Resources", "cls")]
+    stars = [norm(Defs(fd).resolve(k.value)) for c in ctor for k in c.keywords if k.arg is None]
+    ctx.tri("6-roundtrip", fd, ctor[0] if ctor else fd.node, stars == [param], False, "from_dict passes the mapping unchanged to the constructor", "", f"from_dict builds Resources from {stars or 'something else'}", key="from_dict")
     eq = (cls.dataclass_kwargs or {}).get("eq", True)
     ctx.add("6-roundtrip", cls.qualname, cls.loc, eq is not False, "field-wise equality" if eq is not False else "Resources no longer compares field-wise", key="eq")
-
-    wd = ctx.prog.func(f"{MOD}.Resources.with_defaults")
-    calls = [c for c in ast.walk(wd.node) if isinstance(c, ast.Call) and dotted(c.func) == "dict" and c.args]
-    ok = False
-    if calls:
-        c = calls[0]
-        first = ast.unparse(c.args[0])
-        star = [k.value for k in c.keywords if k.arg is None]
-        ok = "default_resources" in first and "self" not in first and bool(star) and "self" in ast.unparse(star[0])
-    ctx.add("7-defaults", wd, calls[0] if calls else wd.node, ok, "dict(default, **self): the receiver's quantities win" if ok else "with_defaults no longer lets the receiver override the defaults", key="order")
-    none_case = [s for s in wd.node.body if isinstance(s, ast.If) and norm(s.test) == "default_resources is None"]
-    ok = bool(none_case) and norm(none_case[0].body[-1]) == "return self"
-    ctx.add("7-defaults", wd, none_case[0] if none_case else wd.node, ok, "no defaults -> receiver unchanged" if ok else "with_defaults(None) does not return the receiver", key="none")
-    for q, recv, arg in ((f"{MOD}.Resources.maybe_with_defaults", "resources", "default_resources"), (f"{MOD}._delayed_resources_with_defaults", "resources", "_default_resources")):
-        f = ctx.prog.func(q)
-        cs = [c for c in ast.walk(f.node) if isinstance(c, ast.Call) and isinstance(c.func, ast.Attribute) and c.func.attr == "with_defaults"]
-        ok = bool(cs) and all(norm(c.func.value) == recv and norm(c.args[0]) == arg for c in cs)
-        ctx.add("7-defaults", f, cs[0] if cs else f.node, ok, "delegates as resources.with_defaults(defaults)" if ok else "receiver and defaults are swapped in the delegation", key="delegate")
+    # ---- 7 defaults
+    wd = P.func(f"{MOD}.Resources.with_defaults")
+    dparam = [p for p in wd.param_names() if p != "self"][0]
+    w = merge_winner(wd.node, dparam, "self")
+    ctx.tri("7-defaults", wd, wd.node, w == "b", w == "a", "the receiver's quantities win over the defaults", "with_defaults lets the DEFAULTS override what the receiver has set", "merge form not recognised", key="order")
+    for q in (f"{MOD}.Resources.maybe_with_defaults", f"{MOD}._delayed_resources_with_defaults"):
+        f = P.func(q)
+        cs = [c for c in ast.walk(f.node) if isinstance(c, ast.Call) and isinstance(c.func, ast.Attribute) and c.func.attr == "with_defaults" and c.args]
+        if not cs:
+            ctx.add("7-defaults", f, f.node, None, "UNDECIDED: no with_defaults call", key="delegate")
+            continue
+        swapped = any("default" in norm(c.func.value) and "default" not in norm(c.args[0]) for c in cs)
+        good = all("default" in norm(c.args[0]) and "default" not in norm(c.func.value) for c in cs)
+        ctx.tri("7-defaults", f, cs[0], good, swapped, "delegates as resources.with_defaults(defaults)", "receiver and defaults are swapped in the delegation", key="delegate")
 
 
 def check(ctx: Ctx) -> None:
@@ -374,28 +451,40 @@ def check(ctx: Ctx) -> None:
 
 
 F = "pipefunc/resources.py"
+_TIME_ARM = ('            if resources.time is not None and (\n                max_data["time"] is None\n                or Resources._convert_to_seconds(resources.time)\n'
+             '                > Resources._convert_to_seconds(max_data["time"])\n            ):\n                max_data["time"] = resources.time\n')
 MUTANTS = [
     Mutant("update-original-F31", F, '                data["extra_args"] = {**data["extra_args"], key: value}\n', '                data["extra_args"][key] = value\n', ("C20.1-pure",), why="original F31"),
     Mutant("update-extra-args-inplace", F, '                data["extra_args"] = {**data["extra_args"], **value}\n', '                data["extra_args"].update(value)\n', ("C20.1-pure",)),
     Mutant("combine-max-mutates-operand", F, "        max_data: dict[str, Any] = {\n", "        resources_list.sort(key=lambda r: r.cpus or 0)\n        max_data: dict[str, Any] = {\n", ("C20.1-pure",)),
     Mutant("combine-max-aliases-extra-args", F, '            "extra_args": {},\n        }', '            "extra_args": resources_list[0].extra_args,\n        }', ("C20.1-pure",)),
-    Mutant("time-original-F30", F,
-           '            if resources.time is not None and (\n                max_data["time"] is None\n                or Resources._convert_to_seconds(resources.time)\n                > Resources._convert_to_seconds(max_data["time"])\n            ):\n                max_data["time"] = resources.time\n',
+    Mutant("time-original-F30", F, _TIME_ARM,
            '            if resources.time is not None:\n                max_data["time"] = (\n                    resources.time\n                    if max_data["time"] is None\n                    else max(max_data["time"], resources.time)\n                )\n',
            ("C20.2-magnitude",), why="original F30"),
     Mutant("memory-as-text", F, "                if current_memory_gb > max_memory_gb:\n", '                if max_data["memory"] is None or resources.memory > max_data["memory"]:\n', ("C20.2-magnitude",)),
+    Mutant("time-as-text-via-local", F, _TIME_ARM,
+           '            if resources.time is not None:\n                longest = max_data["time"]\n                candidate = resources.time\n                if longest is None or candidate > longest:\n                    max_data["time"] = candidate\n',
+           ("C20.2-magnitude",)),
+    Mutant("time-through-helper", F, _TIME_ARM,
+           '            def _larger(a, b):\n                return b if a is None else max(a, b)\n\n            if resources.time is not None:\n                max_data["time"] = _larger(max_data["time"], resources.time)\n', ("C20.2-magnitude",)),
     Mutant("memory-rounded", F, "            return float(value) * units[unit]\n", "            return round(float(value) * units[unit], 3)\n", ("C20.2-magnitude",), why="seeded C20/2"),
     Mutant("gpus-min", F, 'else max(max_data["gpus"], resources.gpus)', 'else min(max_data["gpus"], resources.gpus)', ("C20.3-covers",)),
     Mutant("memory-smaller-wins", F, "                if current_memory_gb > max_memory_gb:\n", "                if current_memory_gb < max_memory_gb:\n", ("C20.3-covers",)),
-    Mutant("time-arm-dropped", F,
-           '            if resources.time is not None and (\n                max_data["time"] is None\n                or Resources._convert_to_seconds(resources.time)\n                > Resources._convert_to_seconds(max_data["time"])\n            ):\n                max_data["time"] = resources.time\n', "", ("C20.3-covers",)),
+    Mutant("time-operands-swapped", F, '                or Resources._convert_to_seconds(resources.time)\n                > Resources._convert_to_seconds(max_data["time"])\n',
+           '                or Resources._convert_to_seconds(max_data["time"])\n                > Resources._convert_to_seconds(resources.time)\n', ("C20.3-covers",)),
+    Mutant("time-arm-dropped", F, _TIME_ARM, "", ("C20.3-covers",)),
     Mutant("slurm-no-time", F, '        if self.time:\n            options.append(f"--time={self.time}")\n', "", ("C20.4-slurm",)),
     Mutant("slurm-no-extra", F, '        for key, value in self.extra_args.items():\n            options.append(f"--{key}={value}")\n', "", ("C20.4-slurm",)),
-    Mutant("no-nodes-cpus-exclusion", F, "        if self.nodes and self.cpus:\n", "        if False and self.nodes and self.cpus:\n", ("C20.5-validated",)),
+    Mutant("no-nodes-cpus-exclusion", F, "        if self.nodes and self.cpus:\n", "        if False and self.nodes:\n", ("C20.5-validated",)),
+    Mutant("gpus-not-validated", F, "        if self.gpus is not None and self.gpus < 0:\n", "        if False:\n", ("C20.5-validated",)),
     Mutant("time-pattern-unanchored", F, 'r"^(\\d+:)?(\\d{2}:)?\\d{2}:\\d{2}$"', 'r"(\\d+:)?(\\d{2}:)?\\d{2}:\\d{2}"', ("C20.5-validated",)),
-    Mutant("dict-keeps-none", F, "return {k: v for k, v in asdict(self).items() if v is not None}", "return {k: v for k, v in asdict(self).items() if v}", ("C20.6-roundtrip",)),
+    Mutant("dict-truthiness-filter", F, "return {k: v for k, v in asdict(self).items() if v is not None}", "return {k: v for k, v in asdict(self).items() if v}", ("C20.6-roundtrip",), why="seeded C20/3"),
     Mutant("defaults-win", F, "return Resources(**dict(default_resources.dict(), **self.dict()))", "return Resources(**dict(self.dict(), **default_resources.dict()))", ("C20.7-defaults",)),
+    Mutant("defaults-win-update-form", F, "        return Resources(**dict(default_resources.dict(), **self.dict()))\n", "        merged = self.dict()\n        merged.update(default_resources.dict())\n        return Resources(**merged)\n", ("C20.7-defaults",)),
     Mutant("units-table-swapped", F, '"TB": 1e3, "PB": 1e6', '"TB": 1e6, "PB": 1e3', ("C20.5-validated",)),
     Mutant("twin-update-dict-union", F, '                data["extra_args"] = {**data["extra_args"], key: value}\n', '                data["extra_args"] = data["extra_args"] | {key: value}\n', twin=True),
-    Mutant("twin-time-local", F, "                > Resources._convert_to_seconds(max_data[\"time\"])\n", "                > Resources._convert_to_seconds(max_data[\"time\"])  # longer\n", twin=True),
+    Mutant("twin-defaults-update-form", F, "        return Resources(**dict(default_resources.dict(), **self.dict()))\n", "        merged = default_resources.dict()\n        merged.update(self.dict())\n        return Resources(**merged)\n", twin=True),
+    Mutant("twin-dict-loop-form", F, "        return {k: v for k, v in asdict(self).items() if v is not None}\n",
+           "        out = {}\n        for k, v in asdict(self).items():\n            if v is None:\n                continue\n            out[k] = v\n        return out\n", twin=True),
+    Mutant("twin-memory-temps-inlined", F, "                if current_memory_gb > max_memory_gb:\n", "                if Resources._convert_to_gb(resources.memory) > max_memory_gb:\n", twin=True),
 ]
